@@ -385,6 +385,40 @@ impl Sim {
         seen
     }
 
+    /// Would pooling `id` now close a cycle in the pool's parent/child links?  The links are: a pooled
+    /// transaction whose output `id` spends or uses as a cell dep is a parent, a pooled transaction that uses
+    /// as a cell dep a cell `id` consumes is a ("cell-ref") parent, and pooled spenders / dep users of `id`'s
+    /// outputs are children.  A cycle (e.g. X depends on an output of `id` while `id` consumes a cell X uses
+    /// as a cell dep) cannot be produced through the pool's validated entry points — one of the two would
+    /// resolve a dead cell — and PoolMap's results on a cyclic link graph depend on HashSet iteration order,
+    /// so the generator never builds one.
+    fn would_cycle(&self, v: &View, id: u64) -> bool {
+        let d = &self.txs[&id];
+        let mut parents: BTreeSet<u64> = BTreeSet::new();
+        for (t, _) in d.inputs.iter().chain(d.deps.iter()) {
+            if v.entries.contains_key(t) {
+                parents.insert(*t);
+            }
+        }
+        for i in &d.inputs {
+            if let Some(us) = v.deps.get(i) {
+                parents.extend(us.iter().copied());
+            }
+        }
+        let mut children: BTreeSet<u64> = BTreeSet::new();
+        children.extend(v.inputs.iter().filter(|((t, _), _)| *t == id).map(|(_, c)| *c));
+        children.extend(v.deps.iter().filter(|((t, _), _)| *t == id).flat_map(|(_, cs)| cs.iter().copied()));
+        let mut up = parents.clone();
+        for p in &parents {
+            up.extend(Self::closure(v, *p, true));
+        }
+        let mut down = children.clone();
+        for c in &children {
+            down.extend(Self::closure(v, *c, false));
+        }
+        up.intersection(&down).next().is_some()
+    }
+
     fn fail(&mut self, out: &mut Out, class: &str, detail: String) {
         if !self.reported {
             out.oracle_fail(class, &detail);
@@ -703,15 +737,38 @@ impl Sim {
                 }
                 self.callbacks = cb;
                 let order = self.drain_rejected();
-                for id in &order {
-                    self.taint_mid(&before, *id);
+                // the oracle for the set itself (remove_expired as repaired by /repo 3724ae4): exactly the
+                // entries with expiry + ts < now together with every pooled transaction that spends or
+                // depends on an output of a removed one (closure over out-points, not over the pool's links)
+                let expired: BTreeSet<u64> = before.entries.iter().filter(|(_, e)| HOUR_MS + e.1 < now).map(|(id, _)| *id).collect();
+                let mut want: BTreeSet<u64> = expired.clone();
+                let mut todo: Vec<u64> = expired.iter().copied().collect();
+                while let Some(x) = todo.pop() {
+                    let kids = before.inputs.iter().filter(|((t, _), _)| *t == x).map(|(_, c)| *c)
+                        .chain(before.deps.iter().filter(|((t, _), _)| *t == x).flat_map(|(_, cs)| cs.iter().copied()));
+                    for k in kids.collect::<Vec<_>>() {
+                        if before.entries.contains_key(&k) && want.insert(k) {
+                            todo.push(k);
+                        }
+                    }
                 }
-                // the oracle for the set itself: exactly the entries with expiry + ts < now
-                let want: BTreeSet<u64> = before.entries.iter().filter(|(_, e)| HOUR_MS + e.1 < now).map(|(id, _)| *id).collect();
-                if want != order.iter().copied().collect() {
-                    self.fail(out, "expired-set-wrong", format!("{line}: removed {:?} expected {:?}", order, want));
+                // `want` is the least the property needs (no survivor may spend or depend on an output of a
+                // removed entry); the pool's own descendant relation is wider (a transaction that consumes a
+                // cell which a pooled transaction uses as a cell dep is linked as that transaction's child and
+                // leaves with it): the removed set must be exactly the closure over that relation
+                let mut want_links: BTreeSet<u64> = expired.clone();
+                for x in &expired {
+                    want_links.extend(Self::closure(&before, *x, false));
                 }
-                out.op(&format!("expire {} {}", now, list_str(&order)), &format!("ok {}", set_str(order.iter().copied())));
+                let got: BTreeSet<u64> = order.iter().copied().collect();
+                if got != want_links || !want.is_subset(&got) {
+                    self.fail(out, "expired-set-wrong", format!("{line}: removed {:?} expected {:?} (at least {:?})", order, want_links, want));
+                }
+                // the model gets the expired ids in the order the implementation visited them
+                let roots: Vec<u64> = order.iter().copied().filter(|id| expired.contains(id)).collect();
+                out.op(&format!("expire {} {}", now, list_str(&roots)), &format!("ok {}", set_str(order.iter().copied())));
+                let after = self.view();
+                self.taint_rmd(&before, &after, None);
                 out.count("expire");
                 if !order.is_empty() {
                     self.kinds.insert("expire-removes");
@@ -1013,7 +1070,7 @@ fn run_case(out: &mut Out, rng: &mut Rng, world: &World, n_ops: usize, clean: bo
                 let st = g.status();
                 let ts = g.next_ts();
                 let conflict = !sim.pool.verif_pool_map().verif_find_conflict_tx(&sim.txs[&id].view).is_empty();
-                if g.rng.chance(1, 5) {
+                if g.rng.chance(1, 5) || sim.would_cycle(&v, id) {
                     // declared only: pooled later (possibly after its children) or committed directly
                     declared.push(id);
                 } else if conflict || g.rng.chance(1, 2) {
@@ -1030,7 +1087,7 @@ fn run_case(out: &mut Out, rng: &mut Rng, world: &World, n_ops: usize, clean: bo
                 if let Some(&id) = declared.iter().find(|d| !pooled.contains(d) && !sim.chain.contains(d)) {
                     declared.retain(|d| *d != id);
                     let has_children = v.inputs.keys().any(|(t, _)| *t == id) || v.deps.keys().any(|(t, _)| *t == id);
-                    if g.clean && has_children {
+                    if (g.clean && has_children) || sim.would_cycle(&v, id) {
                         continue;
                     }
                     let conflict = !sim.pool.verif_pool_map().verif_find_conflict_tx(&sim.txs[&id].view).is_empty();
@@ -1049,7 +1106,7 @@ fn run_case(out: &mut Out, rng: &mut Rng, world: &World, n_ops: usize, clean: bo
                 if !cands.is_empty() {
                     let id = *g.rng.pick(&cands);
                     let has_children = v.inputs.keys().any(|(t, _)| *t == id) || v.deps.keys().any(|(t, _)| *t == id);
-                    if g.clean && has_children {
+                    if (g.clean && has_children) || sim.would_cycle(&v, id) {
                         continue;
                     }
                     let st = g.status();
